@@ -57,7 +57,7 @@ def build():
                ensures=[
                    'links_wf(final(connections)@)', 'distinct_conn_ids(final(connections)@)', 'probes_ok(final(connections)@)',
                    C('C09+C12.drain.handle_uplink_packet.link_identities_are_kept', 'ids_kept(old(connections)@, final(connections)@)'),
-                   C('C09+C12.drain.handle_uplink_packet.empty_datagram_or_unknown_uplink_changes_nothing',
+                   C('C08+C09+C12.drain.handle_uplink_packet.empty_datagram_or_unknown_uplink_changes_nothing',
                      '(packet.bytes@.len() == 0 || no_link_has_id(old(connections)@, packet.conn_id)) ==> final(connections)@ == old(connections)@ && *final(reg) == *old(reg)'),
                ],
                loops={'idx_pos = Some(': dict(
